@@ -1414,6 +1414,16 @@ impl PhysicalPlanner {
                                 .fields()
                                 .iter()
                                 .position(|f| f.name().eq_ignore_ascii_case(&c.name))
+                                // The published payload is a set of i64 build keys and the
+                                // scan applies it to the decoded column as an Int64Array: a
+                                // probe key of another width (`orders.k BIGINT = items.k INT`)
+                                // made the scan fail with "runtime filter column is not
+                                // Int64" on Parquet while the same join ran in memory. No
+                                // filter is a correct (unpruned) scan.
+                                .filter(|&idx| {
+                                    pschema.field(idx).data_type()
+                                        == &arrow::datatypes::DataType::Int64
+                                })
                                 .filter(|_| std::env::var("RT_DISABLE").is_err())
                                 .map(|idx| {
                                     let slot: crate::physical::operators::SharedRuntimeFilter =
